@@ -725,3 +725,9 @@ package types
 //@   loop 0 invariant i == 0 ==> valSet.proposer == old(valSet.proposer) && heap(Validator.Accum) == old(heap(Validator.Accum))
 //@   loop 0 invariant forall(r, Ref, heap(Validator.Accum)[r] != old(heap(Validator.Accum))[r] ==> isValOf(valSet, r, len(valSet.Validators)))
 //@   loop 0 invariant wfValSet(valSet) && sortedVS(valSet)
+
+//@ func (*PartSet).Total
+//@   props C06
+//@   pure
+//@   noalloc
+//@   ensures result == ite(ps == nil, 0, ps.total)
